@@ -78,10 +78,16 @@ def run(ctx, report: Report) -> None:
         raise AnalysisError('match_attribute_name: expected (self, el, attr, prefix)')
     _, p_el, p_attr, p_prefix = params
     _, sn = src.func('css_match._DocumentNav.split_namespace')
-    ok_split = "getattr(attr_name, 'namespace', None), getattr(attr_name, 'name', None)" in unparse(sn).replace('"', "'")
-    if not ok_split:
-        raise AnalysisError('split_namespace no longer returns (getattr(key, "namespace", None), getattr(key, "name", None)): '
-                            'the attribute model of this rule does not apply')
+    from ..interp import Obj, Raised, call_function
+    try:
+        spl = [call_function(ctx, 'css_match._DocumentNav.split_namespace', [Obj(_name='el'), k_], {}, {}, None)
+               for k_ in (Obj(_name='NamespacedAttribute', namespace='NS', name='local'), 'plain')]
+        spl = [tuple(x) if isinstance(x, (tuple, list)) else x for x in spl]
+    except (Raised, miniev.Unsupported) as e:
+        raise AnalysisError(f'split_namespace: outside the evaluable fragment: {e}')
+    if spl != [('NS', 'local'), (None, None)]:
+        raise AnalysisError(f'split_namespace yields {spl} for (a namespaced key, a plain key); the attribute model of this rule '
+                            'assumes (namespace, local name) and (None, None)')
     keys = list(ATTR_KINDS)
     elements = [[]] + [[k] for k in keys] + [list(p) for p in itertools.permutations(keys, 2)]
     first_bad = None
